@@ -162,17 +162,32 @@ func (ex *Exec) slAt(content, off, idx *Term) *Term {
 	return App(name, es, content, off, idx)
 }
 
-// slAtDecls renders the definitions of the sl_at functions.
+// slUpd is the index-relative update: content with element off+idx set to v.
+func (ex *Exec) slUpd(content, off, idx, v *Term) *Term {
+	_, es := arrayParts(content.Sort)
+	if ex.slAtSorts == nil {
+		ex.slAtSorts = map[string]string{}
+	}
+	ex.slAtSorts["sl_at_"+sanitize(es)] = es
+	return App("sl_upd_"+sanitize(es), content.Sort, content, off, idx, v)
+}
+
+// slAtDecls renders the definitions of the sl_at / sl_upd functions.
 func (ex *Exec) slAtDecls(quantified bool) string {
 	s := ""
 	for _, name := range sortedKeys(ex.slAtSorts) {
 		es := ex.slAtSorts[name]
 		as := ArraySort(SInt, es)
+		upd := "sl_upd_" + sanitize(es)
 		if quantified {
 			s += "(declare-fun " + name + " (" + as + " Int Int) " + es + ")\n"
+			s += "(declare-fun " + upd + " (" + as + " Int Int " + es + ") " + as + ")\n"
 			s += "(assert (forall ((a!ax " + as + ") (o!ax Int) (i!ax Int)) (! (= (" + name + " a!ax o!ax i!ax) (select a!ax (+ o!ax i!ax))) :pattern ((" + name + " a!ax o!ax i!ax)))))\n"
+			s += "(assert (forall ((a!ax " + as + ") (o!ax Int) (i!ax Int) (v!ax " + es + ")) (! (= (" + upd + " a!ax o!ax i!ax v!ax) (store a!ax (+ o!ax i!ax) v!ax)) :pattern ((" + upd + " a!ax o!ax i!ax v!ax)))))\n"
+			s += "(assert (forall ((a!ax " + as + ") (o!ax Int) (i!ax Int) (v!ax " + es + ") (j!ax Int)) (! (= (" + name + " (" + upd + " a!ax o!ax i!ax v!ax) o!ax j!ax) (ite (= j!ax i!ax) v!ax (" + name + " a!ax o!ax j!ax))) :pattern ((" + name + " (" + upd + " a!ax o!ax i!ax v!ax) o!ax j!ax)))))\n"
 		} else {
 			s += "(define-fun " + name + " ((a!ax " + as + ") (o!ax Int) (i!ax Int)) " + es + " (select a!ax (+ o!ax i!ax)))\n"
+			s += "(define-fun " + upd + " ((a!ax " + as + ") (o!ax Int) (i!ax Int) (v!ax " + es + ")) " + as + " (store a!ax (+ o!ax i!ax) v!ax))\n"
 		}
 	}
 	return s
